@@ -1066,7 +1066,11 @@ where
                     BoxBody::new(()),
                 );
 
-                self.project().flags.insert(Flags::SHUTDOWN);
+                let this = self.project();
+                this.flags.insert(Flags::SHUTDOWN);
+                // the timer has done its job; left active it would fire again on every poll and
+                // queue another 408 whenever the first one could not be flushed at once
+                this.head_timer.clear(line!());
             }
         };
 
